@@ -188,3 +188,9 @@ impl<BE: DecryptWriteBackend> Indexer<BE> {
             .is_some_and(|indexed| indexed.contains(id))
     }
 }
+
+#[cfg(rustic_core_verif)]
+#[allow(missing_docs, unused_imports, dead_code, clippy::all, clippy::pedantic, clippy::nursery)]
+pub mod verif_hooks {
+    use super::*;
+}
